@@ -212,6 +212,8 @@ def evaluate(gs1, items, sep, paren, rng, tier, viols, cells, counters):
             x, sep, sorted(d), [a for a, _p, _r in items]), w)
         return evals
     counters['decoded'] += 1
+    if counters.get('_samples') is not None and len(counters['_samples']) < 2:
+        counters['_samples'].append({'element_string': x, 'separator': sep, 'parentheses': paren, 'decoded': C.jsonable({k: str(v) for k, v in d.items()})})
     for i, (a, p, r) in enumerate(items):
         cells.add((fmt_class(p), ctx, paren, 'last' if i == len(items) - 1 else 'notlast', 'max' if len(r) == (max_len(p) or -1) else 'short'))
     # A / B: validate
@@ -271,7 +273,7 @@ def work(shard, tier):
     ais = gs1gen.read_ais(path)
     viols = {}
     cells = set()
-    counters = {'cases': 0, 'decoded': 0, 'ais_in_registry': len(ais)}
+    counters = {'cases': 0, 'decoded': 0, 'ais_in_registry': len(ais), '_samples': []}
     evals = 0
     n = 1500 if tier == 'quick' else 20000
     # every AI on its own first (each shard a slice), then combinations
@@ -282,7 +284,7 @@ def work(shard, tier):
     for _ in range(n):
         evals += one_case(gs1_128, ais, rng, tier, viols, cells, counters)
         counters['cases'] += 1
-    samples = []
+    samples = counters.pop('_samples')
     return {'evaluations': max(evals, 1), 'nontrivial': 0, 'nontrivial_keys': ['|'.join(map(str, c)) for c in cells],
             'violations': list(viols.values()), 'samples': samples, 'counters': counters, 'maxes': {'ais_in_registry': len(ais)}}
 
